@@ -18,7 +18,8 @@ AUDIT_FILES = ["ScoresVerif/Lemmas/Bridge.lean", "ScoresVerif/Lemmas/CrpsEns.lea
 LEVEL = "proof"
 TRUSTED = ["hand-written model Model/CrpsEns.lean of crps_for_ensemble / tw variants / brier per-case formula "
            "(tied by differential correspondence only, no translator)",
-           "the integral of a finite step function is the sum of cell width x cell value (Spec.CrpsEns.stepIntegral)"]
+           "(no longer trusted) the step integral equals Mathlib's Lebesgue interval integral: Props/C06Bridge.lean crpsEns_ecdf_eq_lebesgue, "
+           "crpsEns_fair_eq_lebesgue, brier_lebesgue_eq_crps_lebesgue"]
 ASSUMPTIONS = ["inputs are dyadic (k/4, |k|<=64) so float + - x and comparisons are exact; quotients compared to 1e-9",
                "fcst / obs / threshold / weights arrays carry the same coordinate labels in the same stored order "
                "(alignment is C04: F12)",
